@@ -13,6 +13,9 @@ open PMF
                          (`ret=none`), or `bad-checkpoint` (and keeps the configuration) when that entry is not reached at a
                          step boundary.
 
+  checkpointnow <m>      the bundle is taken BETWEEN two callbacks, from the configuration as it is (`saveCfg`; live processes only,
+                         else `bad-checkpoint`), and loaded as above.  Whatever a bundle does not keep is lost: a pending pause /
+                         kill action, scheduled callbacks, a step in flight (the restored instance runs that step again).
   quiescent              prints `ready=<callbacks still scheduled in the model>`: sent when the real event loop has nothing left to
                          run, where the answer must be `ready=` (a callback the model has scheduled and the real loop has not —
                          e.g. `try_killing` after `cancelfut` — would otherwise go unnoticed: the harness only names the
@@ -40,6 +43,15 @@ partial def loop (h : IO.FS.Stream) (t : DrvPM.Table) (c : Cfg) : IO Unit := do
   | ["quiescent"] =>
       IO.println s!"ready={",".intercalate (c.ready.map showCb)}"
       loop h t c
+  | ["checkpointnow", m] =>
+      match m.toNat? with
+      | some m =>
+        if live c then
+          let c' := restoreCfgN m (saveCfg c)
+          IO.println (DrvPM.obs c' .none)
+          loop h t c'
+        else IO.println "bad-checkpoint"; loop h t c
+      | none => IO.println "bad-op"; loop h t c
   | ["checkpoint", k, m] =>
       match k.toNat?, m.toNat? with
       | some k, some m =>
